@@ -162,6 +162,9 @@ func init() {
 		func(c *Ctx) { extraRules["__ro_c08"](c) }, fresh("sign/eddsa.", "sign/schnorr.", "sign/anon."), ptreq("sign/eddsa", "sign/schnorr", "sign/anon"))
 	extraRules["__fresh_c03"] = fresh("MarshalBinary", "Clone", ".Data", ".String", "util/encoding.")
 	extraRules["C02"] = both(entropyRule("C02"), func(c *Ctx) { ScalarModulus(c, "default") }, func(c *Ctx) {
+		specs, reads := FlowSpecs(c, "C02")
+		CheckFlow(c, "C02", specs, reads)
+	}, func(c *Ctx) {
 		for _, cfg := range []string{"default", "ct"} {
 			cfgTag(c, cfg, func() { ReduceDiscipline(c, cfg) })
 		}
